@@ -129,6 +129,10 @@ type c06Topo struct {
 	store     factstore.FactStore
 	exact     bool // EstimateFactCount documented exact
 	canRemove bool
+	// onlyNewAdds: Add is only issued for atoms that are absent (the layered
+	// temporal store documents that it does not deduplicate intervals against
+	// its base, so the return value of re-adding is not judged)
+	onlyNewAdds bool
 }
 
 const (
@@ -138,6 +142,7 @@ const (
 	topoMerged
 	topoTemporal
 	topoTemporalAt
+	topoTemporalLayered
 	numTopos
 )
 
@@ -255,6 +260,24 @@ func runC06(r *simrt.Run, tier Tier) Outcome {
 		t = c06Topo{name: fmt.Sprintf("merged(%d reads, write=%s)", nr, removableNames[kind]), store: factstore.NewMergedStore(reads, newRemovable(kind)), canRemove: true}
 	case topoTemporal:
 		t = c06Topo{name: "temporal-adapter", store: factstore.NewTemporalFactStoreAdapter(factstore.NewTemporalStore()), exact: true}
+	case topoTemporalLayered:
+		// the adapter over a layered temporal store, as the interpreter builds it
+		// after loading a fragment; atoms may have (different) intervals in both layers
+		baseT := factstore.NewTemporalStore()
+		tee := factstore.NewTeeingTemporalStore(baseT)
+		n := 1 + r.Choose(5, "c06.layer.n")
+		for i := 0; i < n; i++ {
+			f := pick("c06.layer")
+			lo := int64(r.Choose(20, "c06.layer.lo"))
+			baseT.Add(ToAtom(f), toInterval(iv{lo, lo + 3}))
+			if r.Bool("c06.layer.both") {
+				tee.Add(ToAtom(f), toInterval(iv{lo + 10, lo + 12}))
+				r.Probe("atom-in-both-temporal-layers")
+			}
+			m.out[f.Key()] = f
+			m.ever[predID(f)] = true
+		}
+		t = c06Topo{name: "temporal-adapter(teeing temporal store)", store: factstore.NewTemporalFactStoreAdapter(tee), onlyNewAdds: true}
 	case topoTemporalAt:
 		at := time.Unix(0, int64(r.Choose(1000, "c06.at"))*1e9).UTC()
 		t = c06Topo{name: "temporal-adapter-at", store: factstore.NewTemporalFactStoreAdapterAt(factstore.NewTemporalStore(), at), exact: true}
@@ -362,6 +385,9 @@ func runC06(r *simrt.Run, tier Tier) Outcome {
 		switch r.Choose(8, "c06.op") {
 		case 0, 1: // Add
 			f := pick("c06.add")
+			if t.onlyNewAdds && m.has(f) {
+				continue
+			}
 			want := !m.has(f)
 			got := s.Add(ToAtom(f))
 			trace = append(trace, fmt.Sprintf("Add(%s) = %v", f.Key(), got))
@@ -457,6 +483,9 @@ func runC06(r *simrt.Run, tier Tier) Outcome {
 			var fs []string
 			for j := 0; j < n; j++ {
 				f := pick("c06.merge")
+				if t.onlyNewAdds && m.has(f) {
+					continue
+				}
 				if _, inBase := m.base[f.Key()]; inBase && topo == topoTeeing {
 					// known finding teeing-merge-duplicates-base-fact: TeeingStore.Merge
 					// copies facts its base already holds into Out (pinned by the
